@@ -206,12 +206,12 @@ Definition rel_line (f:positive * fty) : item :=
                   | FPrim p => LPrim p
                   | _ => LPrim 0
                   end).
-Definition rel_parts (tm:list entity) (eapp:atom) (t:fty) : option (list str) :=
+Definition rel_parts (tm:list entity) (eapp:str) (t:fty) : option (list str) :=
   match t with
   | FRef r => match r_path r with
               | p0 :: _ :: _ =>
                   let tapp := match r_app r with Some a => a | None => eapp end in
-                  if has_type tm (tapp :: p0) then Some [[tapp]; p0] else None
+                  if has_type tm (tapp ++ p0) then Some [tapp; p0] else None
               | _ => None
               end
   | _ => None
@@ -242,12 +242,12 @@ Definition tuple_line (f:positive * fty) : list item :=
   | FRef r => [IField (fst f) (LRefd (match lab (ERef r) with LN l => l | LP _ => empty_str end))]
   | FOther => []
   end.
-Definition relate_parts (tm:list entity) (app:atom) (path:list str) (isprim:bool) : option (list str) :=
+Definition relate_parts (tm:list entity) (app:str) (path:list str) (isprim:bool) : option (list str) :=
   if isprim then None
   else match path with
        | [] => None
        | p0 :: rest =>
-           let '(appn, tn) := match rest with [] => ([app], p0) | p1 :: _ => (p0, p1) end in
+           let '(appn, tn) := match rest with [] => (app, p0) | p1 :: _ => (p0, p1) end in
            if negb (has_type tm (appn ++ tn)) && negb (has_type tm tn) then None else Some [appn; tn]
        end.
 Definition tuple_parts (tm:list entity) (ign:list str) (t:fty) : option (list str) :=
@@ -255,7 +255,7 @@ Definition tuple_parts (tm:list entity) (ign:list str) (t:fty) : option (list st
   | FPrim _ | FOther => None
   | FList e | FSet e => let '(app, path, _, isprim) := get_names e in relate_parts tm app path isprim
   | FSeq e => let '(app, path, _, isprim) := get_names e in
-              if negb isprim && mem_str (join ([app] :: path)) ign then None else relate_parts tm app path isprim
+              if negb isprim && mem_str (join (app :: path)) ign then None else relate_parts tm app path isprim
   | FRef r => let '(app, path, _, isprim) := get_names (ERef r) in
               if mem_str (join path) ign then None else relate_parts tm app path isprim
   end.
@@ -268,7 +268,7 @@ Proof.
   destruct isprim; [intros [= <- <-]; split; reflexivity|].
   destruct path as [|p0 rest]; [discriminate|].
   destruct rest as [|p1 rest'].
-  - destruct (negb (has_type tm ([app] ++ p0)) && negb (has_type tm p0)).
+  - destruct (negb (has_type tm (app ++ p0)) && negb (has_type tm p0)).
     + intros [= <- <-]; split; reflexivity.
     + cbn [sh_tuple_count_new sh_tuple_count_again fixed_shape].
       destruct (uvar (syms s) _) as [sy tgt]. intros [= <- <-]; split; reflexivity.
@@ -292,7 +292,7 @@ Proof.
   - destruct (get_names e) as [[[app path] l] isprim].
     intros H. apply tuple_relate_step in H. destruct H as [-> ->]. split; [reflexivity|exists CMany; reflexivity].
   - destruct (get_names e) as [[[app path] l] isprim].
-    destruct (negb isprim && mem_str (join ([app] :: path)) ign).
+    destruct (negb isprim && mem_str (join (app :: path)) ign).
     + intros [= <- <-]. split; [reflexivity|exists CMany; reflexivity].
     + intros H. apply tuple_relate_step in H. destruct H as [-> ->]. split; [reflexivity|exists CMany; reflexivity].
   - destruct (get_names e) as [[[app path] l] isprim].
@@ -395,11 +395,11 @@ Definition class_key (e:entity) : str :=
   | _ => sym_key (split_args (e_key e))
   end.
 Definition is_drawn (e:entity) : bool :=
-  match e_def e with DRel _ | DTuple _ | DPrim _ | DEnum => true | _ => false end.
+  match e_def e with DRel _ | DTuple _ | DPrim _ | DEnum _ => true | _ => false end.
 (* (class symbol, target symbol) of every relationship the code records for the type *)
 Definition entity_contrib (tm:list entity) (ign:list str) (e:entity) : list (str * str) :=
   match e_def e with
-  | DRel fs => flat_map (fun f => contrib (class_key e) (rel_parts tm (e_app e) (snd f))) fs
+  | DRel fs => flat_map (fun f => contrib (class_key e) (rel_parts tm (entity_app e) (snd f))) fs
   | DTuple fs => flat_map (fun f => contrib (class_key e) (tuple_parts tm ign (snd f))) fs
   | _ => []
   end.
@@ -410,7 +410,7 @@ Definition spec_block (sy:list str) (e:entity) : list item :=
   | DRel fs => IClass a (e_key e) HClass :: map rel_line fs ++ [IEnd]
   | DTuple fs => IClass a (e_key e) HClass :: flat_map tuple_line fs ++ [IEnd]
   | DPrim p => [IClass a (e_key e) (HPrim p); IEnd]
-  | DEnum => [IClass a (e_key e) HEnum; IEnd]
+  | DEnum items => IClass a (e_key e) HEnum :: enum_lines items ++ [IEnd]
   | _ => []
   end.
 
@@ -427,13 +427,13 @@ Lemma entity_inv : forall tm ign s isrel e P s' r' o,
   o = spec_block (syms s') e /\ (is_drawn e = true -> In (class_key e) (syms s')).
 Proof.
   intros tm ign [sy0 r0] isrel e P s' r' o. unfold draw_entity, entity_contrib, spec_block, class_key, is_drawn.
-  destruct (e_def e) as [fs|fs|p| | |] eqn:D; cbn [sh_dispatch fixed_shape find kind_matches].
+  destruct (e_def e) as [fs|fs|p|items| |] eqn:D; cbn [sh_dispatch fixed_shape find kind_matches].
   - (* table *)
     unfold draw_relation. cbn [sh_rel_key fixed_shape enc_parts syms rel].
     destruct (uvar sy0 (split_args (e_key e))) as [sy enc] eqn:U. apply uvar_spec in U. destruct U as [Hx [Hk Henc]].
-    destruct (draw_rel_fields sh0 tm (e_app e) enc {| syms := sy; rel := r0 |} fs) as [[s1 o1]|] eqn:E; [|discriminate].
+    destruct (draw_rel_fields sh0 tm (entity_app e) enc {| syms := sy; rel := r0 |} fs) as [[s1 o1]|] eqn:E; [|discriminate].
     intros [= <- <- <-] Hinv.
-    destruct (rel_fields_inv tm (e_app e) _ enc fs _ P _ _ E (inv_extends _ _ _ _ Hinv Hx) Hk Henc) as [-> [Hx2 Hinv2]].
+    destruct (rel_fields_inv tm (entity_app e) _ enc fs _ P _ _ E (inv_extends _ _ _ _ Hinv Hx) Hk Henc) as [-> [Hx2 Hinv2]].
     cbn [syms] in *. split; [eapply extends_trans; eauto|]. split; [exact Hinv2|]. split.
     + rewrite (extends_idx _ _ _ Hx2 Hk), <- Henc. reflexivity.
     + intros _. eapply extends_in; eauto.
@@ -462,7 +462,7 @@ Qed.
 
 Notation in_view0 := (in_view ViewAppEq).
 (* the types the diagram covers, in order *)
-Definition drawn (filt:option atom) (tm:list entity) : list entity := filter (in_view0 filt) tm.
+Definition drawn (filt:option str) (tm:list entity) : list entity := filter (in_view0 filt) tm.
 
 Lemma entities_inv : forall filt tm ign es s isrel P s' r' o,
   draw_entities sh0 filt tm ign s isrel es = Ok (s', r', o) -> inv s P ->
@@ -493,10 +493,12 @@ Qed.
 
 Lemma spec_block_no_edge : forall sy e, Forall (fun i => match i with IEdge _ _ _ _ => False | _ => True end) (spec_block sy e).
 Proof.
-  intros sy e. unfold spec_block. destruct (e_def e) as [fs|fs|p| | |]; repeat constructor.
+  intros sy e. unfold spec_block. destruct (e_def e) as [fs|fs|p|items| |]; repeat constructor.
   - apply Forall_app. split; [|repeat constructor]. apply Forall_forall. intros i Hi. apply in_map_iff in Hi. destruct Hi as [f [<- _]]. exact I.
   - apply Forall_app. split; [|repeat constructor]. apply Forall_forall. intros i Hi. apply in_flat_map in Hi. destruct Hi as [f [_ Hi]].
     unfold tuple_line in Hi. destruct (snd f); cbn in Hi; try destruct Hi as [<-|[]]; try exact I. destruct Hi.
+  - apply Forall_app. split; [|repeat constructor]. apply Forall_forall. intros i Hi. unfold enum_lines in Hi.
+    apply in_map_iff in Hi. destruct Hi as [v [<- _]]. exact I.
 Qed.
 
 Lemma blocks_no_edge : forall sy D a b, count_edges (flat_map (spec_block sy) D) a b = 0.
@@ -541,9 +543,22 @@ Proof.
 Qed.
 
 (* tables, tuples and enums are declared under their full App.Type name *)
-Lemma class_key_full : forall e, (match e_def e with DPrim _ => False | _ => True end) -> no_eps (e_key e) -> class_key e = e_key e.
+Lemma class_key_full : forall e, (match e_def e with DPrim _ => False | _ => True end) -> e_key e <> [] -> no_eps (e_key e) -> class_key e = e_key e.
 Proof.
-  intros e Hd H. unfold class_key. destruct (e_def e); try destruct Hd; apply sym_key_split; try assumption; discriminate.
+  intros e Hd Hne H. unfold class_key. destruct (e_def e); try destruct Hd; apply sym_key_split; assumption.
+Qed.
+(* ... also when the name is the empty list of chunks (no Go string; kept so that no hypothesis is needed) *)
+Lemma sym_key_split_inj : forall k1 k2, no_eps k1 -> no_eps k2 -> sym_key (split_args k1) = sym_key (split_args k2) -> k1 = k2.
+Proof.
+  intros k1 k2 H1 H2. destruct k1 as [|x1 k1]; destruct k2 as [|x2 k2]; [reflexivity| | |].
+  - rewrite (sym_key_split (x2 :: k2)) by (assumption || discriminate). cbn. intros [= <- <-]. inversion H2; subst. contradiction.
+  - rewrite (sym_key_split (x1 :: k1)) by (assumption || discriminate). cbn. intros [= -> ->]. inversion H1; subst. contradiction.
+  - rewrite !sym_key_split by (assumption || discriminate). auto.
+Qed.
+Lemma class_key_inj : forall e1 e2, (match e_def e1 with DPrim _ => False | _ => True end) -> (match e_def e2 with DPrim _ => False | _ => True end) ->
+  no_eps (e_key e1) -> no_eps (e_key e2) -> class_key e1 = class_key e2 -> e_key e1 = e_key e2.
+Proof.
+  intros e1 e2 D1 D2 N1 N2. unfold class_key. destruct (e_def e1); try destruct D1; destruct (e_def e2); try destruct D2; apply sym_key_split_inj; assumption.
 Qed.
 
 (* relationship lines between two symbols = recorded references between them *)
@@ -595,12 +610,12 @@ Proof.
   intros filt es o H. rewrite draw_is in H. destruct (draw_structure _ _ _ H) as [sy [r [ar [E [Hk _]]]]]. exists sy, r, ar.
   split; [exact E|]. intros e1 e2 H1 H2 D1 D2 P1 P2 N1 N2 Hne.
   apply alias_distinct; [apply Hk; assumption|apply Hk; assumption|].
-  rewrite (class_key_full e1 P1 N1), (class_key_full e2 P2 N2). exact Hne.
+  intros EK. apply Hne. apply class_key_inj; assumption.
 Qed.
 
 Definition ex_prim_clash : list entity :=
-  [ {| e_app := 2%positive; e_name := [4%positive]; e_def := DPrim 4 |};
-    {| e_app := 3%positive; e_name := [4%positive]; e_def := DPrim 6 |} ].
+  [ {| e_app := [2%positive]; e_name := [4%positive]; e_def := DPrim 4 |};
+    {| e_app := [3%positive]; e_name := [4%positive]; e_def := DPrim 6 |} ].
 
 (* ... but two primitive aliases with the same short name share one alias (DrawPrimitive: last token only) *)
 Theorem dm_classes_exact_refuted : exists es o a n1 n2 h1 h2,
@@ -613,16 +628,16 @@ Qed.
 (* fields: a table column of collection type is listed as `no_primitive` *)
 Theorem dm_fields_exact_refuted : exists es o f,
   draw None es = Ok o /\
-  In {| e_app := 2%positive; e_name := [4%positive]; e_def := DRel [(f, FSet (EPrim 4))] |} es /\ In (IField f (LPrim 0)) o.
+  In {| e_app := [2%positive]; e_name := [4%positive]; e_def := DRel [(f, FSet (EPrim 4))] |} es /\ In (IField f (LPrim 0)) o.
 Proof.
-  exists [ {| e_app := 2%positive; e_name := [4%positive]; e_def := DRel [(1%positive, FSet (EPrim 4))] |} ]. eexists. exists 1%positive.
+  exists [ {| e_app := [2%positive]; e_name := [4%positive]; e_def := DRel [(1%positive, FSet (EPrim 4))] |} ]. eexists. exists 1%positive.
   split; [vm_compute; reflexivity|]. split; [left; reflexivity|right; left; reflexivity].
 Qed.
 
 (* tuple fields: the printed label names the field's type *)
-Lemma ref_label_names_path : forall r, lab (ERef r) = LN (join (r_path r)) \/ exists a, lab (ERef r) = LN (a :: join (r_path r)).
+Lemma ref_label_names_path : forall r, lab (ERef r) = LN (join (r_path r)) \/ exists a, lab (ERef r) = LN (a ++ join (r_path r)).
 Proof.
-  intro r. unfold lab, get_names. destruct (Pos.eqb _ (r_ctx r) || Pos.eqb _ eps); [left; reflexivity|right; eexists; reflexivity].
+  intro r. unfold lab, get_names. destruct (str_eqb _ (r_ctx r) || is_empty_str _); [left; reflexivity|right; eexists; reflexivity].
 Qed.
 Lemma prim_label : forall p, lab (EPrim p) = LP p.
 Proof. reflexivity. Qed.
@@ -647,36 +662,35 @@ Lemma tuple_parts_plain : forall tm ign r p0, r_path r = [p0] ->
   mem_str (join [p0]) ign = false -> has_type tm p0 = false ->
   tuple_parts tm ign (FRef r) =
     let app := match r_app r with Some a => a | None => r_ctx r end in
-    if has_type tm (app :: p0) then Some [[app]; p0] else None.
+    if has_type tm (app ++ p0) then Some [app; p0] else None.
 Proof.
-  intros tm ign r p0 Hp Hi Hb. unfold tuple_parts, get_names. rewrite Hp, Hi. unfold relate_parts. cbn [app].
-  rewrite Hb. cbn [negb]. rewrite andb_true_r. clear Hb. destruct (has_type tm (_ :: p0)); reflexivity.
+  intros tm ign r p0 Hp Hi Hb. unfold tuple_parts, get_names. rewrite Hp, Hi. unfold relate_parts.
+  rewrite Hb. cbn [negb]. rewrite andb_true_r. clear Hb. destruct (has_type tm (_ ++ p0)); reflexivity.
 Qed.
 Lemma set_parts_plain : forall tm ign r p0, r_path r = [p0] -> has_type tm p0 = false ->
   tuple_parts tm ign (FSet (ERef r)) =
     let app := match r_app r with Some a => a | None => r_ctx r end in
-    if has_type tm (app :: p0) then Some [[app]; p0] else None.
+    if has_type tm (app ++ p0) then Some [app; p0] else None.
 Proof.
-  intros tm ign r p0 Hp Hb. unfold tuple_parts, get_names. rewrite Hp. unfold relate_parts. cbn [app].
-  rewrite Hb. cbn [negb]. rewrite andb_true_r. clear Hb. destruct (has_type tm (_ :: p0)); reflexivity.
+  intros tm ign r p0 Hp Hb. unfold tuple_parts, get_names. rewrite Hp. unfold relate_parts.
+  rewrite Hb. cbn [negb]. rewrite andb_true_r. clear Hb. destruct (has_type tm (_ ++ p0)); reflexivity.
 Qed.
-Lemma sym_key_pair : forall a p0, a <> eps -> is_empty_str p0 = false -> sym_key [[a]; p0] = a :: p0.
+Lemma sym_key_pair : forall a p0, a <> [] -> is_empty_str a = false -> is_empty_str p0 = false -> sym_key [a; p0] = a ++ p0.
 Proof.
-  intros a p0 Ha Hp. unfold sym_key. cbn [filter]. unfold is_empty_str at 1, empty_str. cbn [str_eqb].
-  destruct (Pos.eqb a eps) eqn:E; [apply Pos.eqb_eq in E; contradiction|]. cbn [andb negb]. rewrite Hp. cbn [negb].
-  unfold join. cbn [concat app]. rewrite app_nil_r. reflexivity.
+  intros a p0 Hne Ha Hp. unfold sym_key. cbn [filter]. rewrite Ha, Hp. cbn [negb].
+  unfold join. cbn [concat]. rewrite app_nil_r. destruct a; [contradiction|reflexivity].
 Qed.
 
 Definition ex_nested : list entity :=
-  [ {| e_app := 2%positive; e_name := [4%positive];
-       e_def := DTuple [(1%positive, FRef {| r_ctx := 2%positive; r_app := None; r_parts := []; r_path := [[4%positive]; [5%positive]] |})] |};
-    {| e_app := 2%positive; e_name := [4%positive; 5%positive]; e_def := DTuple [] |} ].
+  [ {| e_app := [2%positive]; e_name := [4%positive];
+       e_def := DTuple [(1%positive, FRef {| r_ctx := [2%positive]; r_app := None; r_parts := []; r_path := [[4%positive]; [5%positive]] |})] |};
+    {| e_app := [2%positive]; e_name := [4%positive; 5%positive]; e_def := DTuple [] |} ].
 
 (* a reference by a nested name (A.B inside application 2) to a type the diagram declares gets no line *)
 Theorem dm_edges_exact_refuted : exists es o a n,
   draw None es = Ok o /\ In (IClass a (2%positive :: n) HClass) o /\
-  In {| e_app := 2%positive; e_name := [4%positive];
-        e_def := DTuple [(1%positive, FRef {| r_ctx := 2%positive; r_app := None; r_parts := []; r_path := [[4%positive]; [5%positive]] |})] |} es /\
+  In {| e_app := [2%positive]; e_name := [4%positive];
+        e_def := DTuple [(1%positive, FRef {| r_ctx := [2%positive]; r_app := None; r_parts := []; r_path := [[4%positive]; [5%positive]] |})] |} es /\
   n = join [[4%positive]; [5%positive]] /\ forall x y, count_edges o x y = 0.
 Proof.
   exists ex_nested. eexists. exists 1, [4%positive; 5%positive].
@@ -685,9 +699,9 @@ Proof.
 Qed.
 
 Definition ex_prim_ref : list entity :=
-  [ {| e_app := 2%positive; e_name := [4%positive]; e_def := DPrim 4 |};
-    {| e_app := 2%positive; e_name := [5%positive];
-       e_def := DTuple [(1%positive, FRef {| r_ctx := 2%positive; r_app := None; r_parts := []; r_path := [[4%positive]] |})] |} ].
+  [ {| e_app := [2%positive]; e_name := [4%positive]; e_def := DPrim 4 |};
+    {| e_app := [2%positive]; e_name := [5%positive];
+       e_def := DTuple [(1%positive, FRef {| r_ctx := [2%positive]; r_app := None; r_parts := []; r_path := [[4%positive]] |})] |} ].
 
 (* a reference to a primitive alias gets a line, but to an alias that declares no class *)
 Theorem dm_edges_prim_alias_refuted : exists es o a b c ar,
@@ -700,22 +714,36 @@ Qed.
 
 (* non-vacuity: a module on which draw succeeds, with two references to one target counted twice *)
 Definition ex_two_refs : list entity :=
-  [ {| e_app := 2%positive; e_name := [4%positive];
-       e_def := DTuple [(1%positive, FRef {| r_ctx := 2%positive; r_app := None; r_parts := []; r_path := [[5%positive]] |});
-                        (2%positive, FSet (ERef {| r_ctx := 2%positive; r_app := None; r_parts := []; r_path := [[5%positive]] |}))] |};
-    {| e_app := 2%positive; e_name := [5%positive]; e_def := DTuple [(1%positive, FPrim 4)] |};
-    {| e_app := 3%positive; e_name := [5%positive];
+  [ {| e_app := [2%positive]; e_name := [4%positive];
+       e_def := DTuple [(1%positive, FRef {| r_ctx := [2%positive]; r_app := None; r_parts := []; r_path := [[5%positive]] |});
+                        (2%positive, FSet (ERef {| r_ctx := [2%positive]; r_app := None; r_parts := []; r_path := [[5%positive]] |}))] |};
+    {| e_app := [2%positive]; e_name := [5%positive]; e_def := DTuple [(1%positive, FPrim 4)] |};
+    {| e_app := [3%positive]; e_name := [5%positive];
        e_def := DRel [(1%positive, FPrim 4);
-                      (2%positive, FRef {| r_ctx := 3%positive; r_app := None; r_parts := []; r_path := [[5%positive]; [6%positive]] |});
-                      (3%positive, FRef {| r_ctx := 3%positive; r_app := None; r_parts := []; r_path := [[5%positive]; [6%positive]] |})] |} ].
+                      (2%positive, FRef {| r_ctx := [3%positive]; r_app := None; r_parts := []; r_path := [[5%positive]; [6%positive]] |});
+                      (3%positive, FRef {| r_ctx := [3%positive]; r_app := None; r_parts := []; r_path := [[5%positive]; [6%positive]] |})] |} ].
 Example ex_two_refs_draws : exists o, draw None ex_two_refs = Ok o /\ count_edges o 0 1 = 2 /\ count_edges o 2 2 = 2.
 Proof. eexists. split; [vm_compute; reflexivity|]. split; reflexivity. Qed.
 
 (* ------------------------------------------------------------------ the per-application view *)
-(* the filter keeps exactly the entities of that application *)
-Lemma drawn_app_exact : forall a tm e, In e (drawn (Some a) tm) <-> In e tm /\ e_app e = a.
+(* the filter keeps exactly the entities whose name STARTS with the chunk list `a` of one chunk: the code compares
+   strings.Split(entityName, ".")[0] with the application name *)
+Lemma drawn_app_chunk : forall a tm e, In e (drawn (Some a) tm) <-> In e tm /\ [hd eps (e_key e)] = a.
 Proof.
-  intros a tm e. unfold drawn. rewrite filter_In. unfold in_view. rewrite Pos.eqb_eq. reflexivity.
+  intros a tm e. unfold drawn. rewrite filter_In. unfold in_view. rewrite str_eqb_eq. reflexivity.
+Qed.
+
+(* when application names contain no '.', that is the equality of the application *)
+Definition plain_app (a:str) : Prop := exists x, a = [x].
+Lemma hd_key_plain : forall e x, e_app e = [x] -> [hd eps (e_key e)] = [x].
+Proof. intros e x H. unfold e_key. rewrite H. reflexivity. Qed.
+
+Lemma drawn_app_exact : forall a tm e, plain_app a -> (forall e', In e' tm -> plain_app (e_app e')) ->
+  (In e (drawn (Some a) tm) <-> In e tm /\ e_app e = a).
+Proof.
+  intros a tm e [x ->] Hp. rewrite drawn_app_chunk. split; intros [Hin H]; (split; [exact Hin|]).
+  - destruct (Hp e Hin) as [y Hy]. rewrite (hd_key_plain e y Hy) in H. rewrite Hy. exact H.
+  - apply hd_key_plain. exact H.
 Qed.
 
 Lemma relationship_only_edges : forall r ar i, In i (draw_relationship r ar) -> exists f t c, i = IEdge f t c ar.
@@ -726,14 +754,15 @@ Qed.
 
 Lemma spec_block_class : forall sy e al n h, In (IClass al n h) (spec_block sy e) -> n = e_key e /\ is_drawn e = true.
 Proof.
-  intros sy e al n h. unfold spec_block, is_drawn. destruct (e_def e) as [fs|fs|p| | |]; cbn [In].
+  intros sy e al n h. unfold spec_block, is_drawn. destruct (e_def e) as [fs|fs|p|items| |]; cbn [In].
   - intros [[= _ <- _]|H]; [split; reflexivity|]. apply in_app_or in H. destruct H as [H|[H|[]]]; [|discriminate].
     apply in_map_iff in H. destruct H as [f [H _]]. discriminate.
   - intros [[= _ <- _]|H]; [split; reflexivity|]. apply in_app_or in H. destruct H as [H|[H|[]]]; [|discriminate].
     apply in_flat_map in H. destruct H as [f [_ H]]. unfold tuple_line in H.
     destruct (snd f); cbn [In] in H; try destruct H as [H|[]]; try discriminate. destruct H.
   - intros [[= _ <- _]|[H|[]]]; [split; reflexivity|discriminate].
-  - intros [[= _ <- _]|[H|[]]]; [split; reflexivity|discriminate].
+  - intros [[= _ <- _]|H]; [split; reflexivity|]. apply in_app_or in H. destruct H as [H|[H|[]]]; [|discriminate].
+    unfold enum_lines in H. apply in_map_iff in H. destruct H as [v [H _]]. discriminate.
   - intros [].
   - intros [].
 Qed.
@@ -743,27 +772,151 @@ Proof.
   intros sy e. unfold spec_block, is_drawn. destruct (e_def e); try discriminate; intros _; eexists; eexists; left; reflexivity.
 Qed.
 
-(* per-application view of application a: the classes of the diagram are exactly the tables, tuples, primitive
-   aliases and enums OF THAT APPLICATION - none of another application (however its name is spelled), none missing *)
+(* per-application view, by chunk (no hypothesis): the classes of the view of `a` are exactly the covered types whose
+   App.Type name has `a` as its first '.'-chunk *)
+Theorem view_of_app_chunk : forall a es o, draw (Some a) es = Ok o ->
+  (forall al n h, In (IClass al n h) o ->
+     exists e, In e (type_map es) /\ [hd eps (e_key e)] = a /\ is_drawn e = true /\ n = e_key e) /\
+  (forall e, In e (type_map es) -> [hd eps (e_key e)] = a -> is_drawn e = true -> exists al h, In (IClass al (e_key e) h) o).
+Proof.
+  intros a es o H. destruct (dm_blocks_exact _ _ _ H) as [sy [r [ar ->]]]. split.
+  - intros al n h Hin. apply in_app_or in Hin. destruct Hin as [Hin|Hin].
+    + apply in_flat_map in Hin. destruct Hin as [e [He Hb]]. apply drawn_app_chunk in He. destruct He as [He Ha].
+      destruct (spec_block_class _ _ _ _ _ Hb) as [-> Hd]. exists e. repeat split; assumption.
+    + apply relationship_only_edges in Hin. destruct Hin as [f [t [c Hin]]]. discriminate.
+  - intros e He Ha Hd. destruct (spec_block_has_class sy e Hd) as [al [h Hin]]. exists al, h.
+    apply in_or_app. left. apply in_flat_map. exists e. split; [apply drawn_app_chunk; split; assumption|exact Hin].
+Qed.
+
+(* per-application view of application a, application names without '.': the classes of the diagram are exactly the
+   tables, tuples, primitive aliases and enums OF THAT APPLICATION - none of another application (however its name is
+   spelled), none missing *)
 Theorem view_of_app_exact : forall a es o, draw (Some a) es = Ok o ->
+  plain_app a -> (forall e, In e (type_map es) -> plain_app (e_app e)) ->
   (forall al n h, In (IClass al n h) o ->
      exists e, In e (type_map es) /\ e_app e = a /\ is_drawn e = true /\ n = e_key e) /\
   (forall e, In e (type_map es) -> e_app e = a -> is_drawn e = true -> exists al h, In (IClass al (e_key e) h) o).
 Proof.
-  intros a es o H. destruct (dm_blocks_exact _ _ _ H) as [sy [r [ar ->]]]. split.
-  - intros al n h Hin. apply in_app_or in Hin. destruct Hin as [Hin|Hin].
-    + apply in_flat_map in Hin. destruct Hin as [e [He Hb]]. apply drawn_app_exact in He. destruct He as [He Ha].
-      destruct (spec_block_class _ _ _ _ _ Hb) as [-> Hd]. exists e. repeat split; assumption.
-    + apply relationship_only_edges in Hin. destruct Hin as [f [t [c Hin]]]. discriminate.
-  - intros e He Ha Hd. destruct (spec_block_has_class sy e Hd) as [al [h Hin]]. exists al, h.
-    apply in_or_app. left. apply in_flat_map. exists e. split; [apply drawn_app_exact; split; assumption|exact Hin].
+  intros a es o H Ha Hp. destruct (view_of_app_chunk _ _ _ H) as [V1 V2]. split.
+  - intros al n h Hin. destruct (V1 _ _ _ Hin) as [e [He [Hc [Hd Hn]]]]. exists e.
+    assert (In e (drawn (Some a) (type_map es))) as Hdr by (apply drawn_app_chunk; split; assumption).
+    apply (drawn_app_exact a (type_map es) e Ha Hp) in Hdr. destruct Hdr as [_ Hdr]. repeat split; assumption.
+  - intros e He Hae Hd. apply V2; try assumption.
+    assert (In e (drawn (Some a) (type_map es))) as Hdr by (apply (drawn_app_exact a (type_map es) e Ha Hp); split; assumption).
+    apply drawn_app_chunk in Hdr. apply Hdr.
+Qed.
+
+(* ... refuted in full: an application whose name contains '.' (written App%2E2) has an EMPTY view, and the view of
+   the application named like its first chunk declares its types *)
+Definition ex_dotted_app : list entity :=
+  [ {| e_app := [2%positive]; e_name := [4%positive]; e_def := DTuple [(1%positive, FPrim 4)] |};
+    {| e_app := [2%positive; 3%positive]; e_name := [5%positive]; e_def := DTuple [(1%positive, FPrim 4)] |} ].
+Theorem view_of_dotted_app_refuted :
+  (exists e, In e (type_map ex_dotted_app) /\ e_app e = [2%positive; 3%positive] /\ is_drawn e = true /\
+     draw (Some [2%positive; 3%positive]) ex_dotted_app = Ok []) /\
+  (exists o al h e, draw (Some [2%positive]) ex_dotted_app = Ok o /\ In (IClass al (e_key e) h) o /\
+     In e (type_map ex_dotted_app) /\ e_app e <> [2%positive]).
+Proof.
+  split.
+  - eexists. split; [right; left; reflexivity|]. split; [reflexivity|]. split; [reflexivity|vm_compute; reflexivity].
+  - eexists. exists 1, HClass, {| e_app := [2%positive; 3%positive]; e_name := [5%positive]; e_def := DTuple [(1%positive, FPrim 4)] |}.
+    split; [vm_compute; reflexivity|]. split; [right; right; right; left; reflexivity|]. split; [right; left; reflexivity|discriminate].
 Qed.
 
 (* every field line of the view belongs to a block of that application: the whole class section is built from
    drawn (Some a), and relationship lines start at its classes only (dm_edges_exact_partial: P ranges over drawn) *)
 Example view_prefix_names : exists o,
-  draw (Some 2%positive)
-       [ {| e_app := 2%positive; e_name := [4%positive]; e_def := DTuple [(1%positive, FPrim 4)] |};
-         {| e_app := 3%positive; e_name := [4%positive]; e_def := DTuple [(1%positive, FPrim 4)] |} ] = Ok o /\
-  o = [IClass 0 [2%positive; 4%positive] HClass; IField 1%positive (LPrim 4); IEnd].
-Proof. eexists. split; [vm_compute; reflexivity|reflexivity]. Qed.
+  draw (Some [2%positive])
+       [ {| e_app := [2%positive]; e_name := [4%positive]; e_def := DTuple [(1%positive, FPrim 4)] |};
+         {| e_app := [3%positive]; e_name := [4%positive]; e_def := DTuple [(1%positive, FPrim 4)] |} ] = Ok o /\
+  o = [IClass 0 [2%positive; 4%positive] HClass; IField 1%positive (LPrim 4); IEnd] /\
+  plain_app [2%positive].
+Proof. eexists. split; [vm_compute; reflexivity|]. split; [reflexivity|exists 2%positive; reflexivity]. Qed.
+
+(* ------------------------------------------------------------------ enum items (DrawEnum) *)
+From Coq Require Import ZArith Permutation.
+
+Lemma insert_z_perm : forall x l, Permutation (insert_z x l) (x :: l).
+Proof.
+  induction l as [|y l IH]; cbn [insert_z]; [reflexivity|].
+  destruct (Z.leb x y); [reflexivity|]. rewrite IH. apply perm_swap.
+Qed.
+Lemma sort_z_perm : forall l, Permutation (sort_z l) l.
+Proof. induction l as [|x l IH]; cbn [sort_z]; [reflexivity|]. rewrite insert_z_perm, IH. reflexivity. Qed.
+
+Lemma val_to_name_absent : forall items v cur, ~ In v (map snd items) -> val_to_name items v cur = cur.
+Proof.
+  induction items as [|[n v'] items IH]; intros v cur H; cbn [val_to_name]; [reflexivity|].
+  cbn [map snd In] in H. destruct (Z.eqb v v') eqn:E; [apply Z.eqb_eq in E; subst; exfalso; apply H; left; reflexivity|].
+  apply IH. intros Hin. apply H. right. exact Hin.
+Qed.
+Lemma val_to_name_unique : forall items n v cur, NoDup (map snd items) -> In (n, v) items -> val_to_name items v cur = n.
+Proof.
+  induction items as [|[n' v'] items IH]; intros n v cur Hnd Hin; [destruct Hin|]. cbn [val_to_name].
+  cbn [map snd] in Hnd. inversion Hnd as [|? ? Hni Hnd']; subst. destruct Hin as [[= -> ->]|Hin].
+  - rewrite Z.eqb_refl. apply val_to_name_absent. exact Hni.
+  - apply IH; assumption.
+Qed.
+
+(* always: as many item lines as enumerators *)
+Lemma enum_lines_length : forall items, length (enum_lines items) = length items.
+Proof.
+  intro items. unfold enum_lines. rewrite map_length. rewrite (Permutation_length (sort_z_perm _)). apply map_length.
+Qed.
+
+(* enumerators with pairwise different values: every enumerator is listed exactly once (as a multiset, the item
+   lines are the enumerator names) *)
+Theorem enum_items_exact_partial : forall items, NoDup (map snd items) ->
+  Permutation (enum_lines items) (map (fun x => IItem (fst x)) items).
+Proof.
+  intros items Hnd. unfold enum_lines.
+  rewrite (Permutation_map (fun v => IItem (val_to_name items v 1%positive)) (sort_z_perm (map snd items))).
+  rewrite map_map. apply Permutation_refl'. apply map_ext_in. intros [n v] Hin. cbn [fst snd].
+  rewrite (val_to_name_unique items n v _ Hnd Hin). reflexivity.
+Qed.
+Example enum_items_example : NoDup (map snd [(1%positive, 2%Z); (2%positive, 1%Z); (3%positive, 5%Z)]) /\
+  enum_lines [(1%positive, 2%Z); (2%positive, 1%Z); (3%positive, 5%Z)] = [IItem 2%positive; IItem 1%positive; IItem 3%positive].
+Proof. split; [repeat constructor; cbn; intuition discriminate|reflexivity]. Qed.
+
+(* two enumerators with one value: one of them is not listed, the other is listed twice *)
+Theorem enum_items_exact_refuted : exists es o a n1 n2,
+  draw None es = Ok o /\ In {| e_app := [2%positive]; e_name := [4%positive]; e_def := DEnum [(n1, 5%Z); (n2, 5%Z)] |} es /\
+  n1 <> n2 /\ o = [IClass a [2%positive; 4%positive] HEnum; IItem n2; IItem n2; IEnd].
+Proof.
+  exists [ {| e_app := [2%positive]; e_name := [4%positive]; e_def := DEnum [(1%positive, 5%Z); (2%positive, 5%Z)] |} ].
+  eexists. exists 0, 1%positive, 2%positive. split; [vm_compute; reflexivity|]. split; [left; reflexivity|]. split; [discriminate|reflexivity].
+Qed.
+
+(* ------------------------------------------------------------------ round 3: two more refutations *)
+(* a table of an application whose name contains '.': DrawRelation takes the first chunk of the name for the
+   application of a local foreign key, finds no such table and draws no line *)
+Definition ex_dotted_table : list entity :=
+  [ {| e_app := [2%positive; 3%positive]; e_name := [4%positive];
+       e_def := DRel [(1%positive, FPrim 4);
+                      (2%positive, FRef {| r_ctx := [2%positive; 3%positive]; r_app := None; r_parts := []; r_path := [[4%positive]; [6%positive]] |})] |} ].
+Theorem dm_edges_dotted_app_refuted : exists o a,
+  draw None ex_dotted_table = Ok o /\ In (IClass a [2%positive; 3%positive; 4%positive] HClass) o /\
+  In (IField 2%positive (LFK [4%positive; 6%positive])) o /\ forall x y, count_edges o x y = 0.
+Proof.
+  eexists. exists 0. split; [vm_compute; reflexivity|]. split; [left; reflexivity|]. split; [right; right; left; reflexivity|].
+  intros x y. reflexivity.
+Qed.
+
+(* cardinality labels: all lines from one class to one target carry the label of the FIRST field (in sort.Strings
+   order of the field names) - a `set of B` field followed by a plain `B` field gives two lines "0..*" *)
+Definition ex_card : list entity :=
+  [ {| e_app := [2%positive]; e_name := [4%positive];
+       e_def := DTuple [(1%positive, FSet (ERef {| r_ctx := [2%positive]; r_app := None; r_parts := []; r_path := [[5%positive]] |}));
+                        (2%positive, FRef {| r_ctx := [2%positive]; r_app := None; r_parts := []; r_path := [[5%positive]] |})] |};
+    {| e_app := [2%positive]; e_name := [5%positive]; e_def := DTuple [(1%positive, FPrim 4)] |} ].
+Theorem dm_card_exact_refuted : exists o,
+  draw None ex_card = Ok o /\ count_edges o 0 1 = 2 /\ In (IEdge 0 1 CMany false) o /\ ~ In (IEdge 0 1 COne false) o.
+Proof.
+  eexists. split; [vm_compute; reflexivity|]. split; [reflexivity|]. split.
+  - cbn. tauto.
+  - intros H. cbn in H. repeat (destruct H as [H|H]; [discriminate|]). destruct H.
+Qed.
+(* ... the lines of a table carry the blank label, those of a tuple field its own label on first use *)
+Lemma rel_step_card : forall tm eapp enc s f s' o, draw_rel_field sh0 tm eapp enc s f = Ok (s', o) ->
+  s' = step s enc CBlank (rel_parts tm eapp (snd f)).
+Proof. intros tm eapp enc s f s' o H. apply rel_field_step in H. apply H. Qed.
